@@ -33,6 +33,10 @@ pub enum Op {
     Get { key: usize, a: u32, b: u32 },
     /// racing deletion of a cache file (picked from the sorted directory listing at that moment)
     DeleteFile { pick: u64 },
+    /// a put with inconsistent arguments built from the true content: 0 data with trailing extra bytes, 1 range one
+    /// chunk wider than the offsets, 2 range one chunk narrower, 3 empty range, 4 data one byte short. It may be
+    /// refused (the shipped code refuses all of them) or stored; either way later hits must return true slices.
+    BadPut { key: usize, a: u32, b: u32, kind: u32 },
 }
 
 #[derive(Clone, Debug, Serialize, Deserialize, PartialEq)]
@@ -304,7 +308,8 @@ fn gen(seed: u64, run: u64, focus: &str, tier: Tier) -> Plan {
                     let a = rng.below(n as u64) as u32;
                     (k, a, a + 1 + rng.below((n - a) as u64) as u32)
                 };
-                let op = match rng.weighted(&[5, 4, if damage_free && focus != "C13" { 0 } else { 1 }]) {
+                let op = match rng.weighted(&[10, 8, if damage_free && focus != "C13" { 0 } else { 2 }, 1]) {
+                    3 => Op::BadPut { key: k, a, b, kind: rng.below(5) as u32 },
                     0 => Op::Put { key: k, a, b },
                     1 => {
                         // often a sub-range of something put
@@ -695,6 +700,30 @@ fn run_plan(p: &Plan, focus: &str, rep: &mut RunReport) {
                                 },
                             }
                         },
+                        Op::BadPut { key, a, b, kind } => {
+                            let vk = &vks[*key];
+                            let (off, mut data) = vk.slice(*a, *b);
+                            let (mut ra, mut rb) = (*a, *b);
+                            match kind % 5 {
+                                0 => data.extend_from_slice(&[0xA5; 64]),
+                                1 => rb += 1,
+                                2 => {
+                                    if rb - ra >= 2 {
+                                        rb -= 1
+                                    } else {
+                                        ra = rb
+                                    }
+                                },
+                                3 => rb = ra,
+                                _ => {
+                                    data.pop();
+                                },
+                            }
+                            match cache.put(&vk.key, &ChunkRange { start: ra, end: rb }, &off, &data) {
+                                Ok(()) => bump(&sh, "probe:inconsistent_put_accepted", 1),
+                                Err(_) => bump(&sh, "probe:inconsistent_put_refused", 1),
+                            }
+                        },
                         Op::DeleteFile { pick } => {
                             // an external cleaner removing cache item files (never in-flight temp files)
                             let files: Vec<_> = list_files(&root).into_iter().filter(|f| parse_item_name(&f.2).is_some()).collect();
@@ -910,7 +939,7 @@ impl Engine for CacheEngine {
             // drop the last key if no op uses it
             let last = p.keys.len() - 1;
             let used = p.phases.iter().flat_map(|ph| ph.threads.iter().flatten()).any(|o| match o {
-                Op::Put { key, .. } | Op::Get { key, .. } => *key == last,
+                Op::Put { key, .. } | Op::Get { key, .. } | Op::BadPut { key, .. } => *key == last,
                 _ => false,
             });
             if !used {
